@@ -317,9 +317,22 @@ func phaseDec(o hx.Opts, r *hx.Rand) {
 				dec := make([]byte, len(rec)-21)
 				cipher.NewCBCDecrypter(blk, iv).CryptBlocks(dec, rec[21:])
 				pl := int(dec[len(dec)-1])
-				for _, mut := range []int{0, 1, 2} {
+				for _, mut := range []int{0, 1, 2, 3, 4} {
 					d2 := append([]byte(nil), dec...)
 					switch mut {
+					case 3:
+						// the whole decrypted text is well-formed padding: it swallows the MAC, n = len - macSize - paddingLen
+						// is negative before the clamp `ConstantTimeSelect(int(uint32(n)>>31), 0, n)`
+						if len(dec) > 256 {
+							continue
+						}
+						d2 = bytesOf(byte(len(dec)-1), len(dec))
+					case 4:
+						// … and one that leaves 16 bytes: still fewer than a MAC
+						if len(dec) < 48 || len(dec)-16 > 256 {
+							continue
+						}
+						d2 = append(append([]byte(nil), dec[:16]...), bytesOf(byte(len(dec)-16-1), len(dec)-16)...)
 					case 0:
 						if pl == 0 {
 							continue
